@@ -37,7 +37,7 @@ func (s selSpec) build() *gtfsrt.EntitySelector {
 		e.RouteId = sp(fmt.Sprintf("R%d", s.route))
 	}
 	if s.rtype > 0 {
-		v := []int32{3, 99}[s.rtype-1]
+		v := c12RouteTypes[s.rtype-1]
 		e.RouteType = &v
 	}
 	if s.dir > 0 {
@@ -86,6 +86,9 @@ func genFullSelector(c *Ctx, p string) selSpec {
 	}
 	return s
 }
+
+// route types: two values for the products, then every other GTFS value and more unknown ones
+var c12RouteTypes = []int32{3, 99, 0, 1, 2, 4, 5, 6, 7, 11, 12, 8, 10, -1, 10000}
 
 var c12Sub120, c12Sub24 []selSpec
 
@@ -231,12 +234,21 @@ func init() {
 	register(&Check{
 		ID:    "C12",
 		Level: "model_checking",
-		Rule: "full products: all 7 884 single selectors; all 14 400 ordered pairs over a 120-selector sub-alphabet (plain {none,R1,R2,stop,agency} x 12 descriptor classes x own direction) in one alert and split over two alerts; thorough adds all 13 824 triples over 24 selectors and all pairs (120 x 7 884); all map rotations of the fall-back loop; " +
+		Rule: "full products: all 7 884 single selectors; every GTFS route type 0-7, 11, 12 and five unknown values x plain fields; all 14 400 ordered pairs over a 120-selector sub-alphabet (plain {none,R1,R2,stop,agency} x 12 descriptor classes x own direction) in one alert and split over two alerts; thorough adds all 13 824 triples over 24 selectors and all pairs (120 x 7 884); all map rotations of the fall-back loop; " +
 			"non-trivial = distinct messages with at least one trip descriptor in a selector; oracle = reference normaliser + output invariants",
 		Assumptions: []string{"for descriptors with a route and only part of a start (or a schedule relationship) the route fall-back is neither required nor forbidden", "a route type outside the GTFS list informs nothing"},
 		Scenarios: func(tier string) []*Scenario {
 			s := []*Scenario{
 				{Name: "single-selector", Bound: -1, Run: func(c *Ctx) { c12Check(c, [][]selSpec{{genFullSelector(c, "s.")}}) }},
+				{Name: "all-route-types", Bound: -1, Run: func(c *Ctx) {
+					s := selSpec{rtype: 1 + c.Free("route_type", len(c12RouteTypes)), agency: c.Free("agency", 2), route: c.Free("route", 2), stop: c.Free("stop", 2), dir: c.Free("direction", 2)}
+					if c.Free("trip", 3) > 0 {
+						s.hasTD = true
+						s.tdRoute = 1
+					}
+					// next to a plain selector, so that a dropped entity shifts its successors
+					c12Check(c, [][]selSpec{{s, {stop: 1}}})
+				}},
 				{Name: "pairs-over-120", Bound: -1, Run: func(c *Ctx) {
 					a, b := c12Sub120[c.Free("first", 120)], c12Sub120[c.Free("second", 120)]
 					if c.Free("split_into_two_alerts", 2) == 1 {
